@@ -13,7 +13,7 @@ variable {a : Store} {s : Streams}
 /-- a queue change that obviously adds no RST_STREAM -/
 macro_rules
   | `(tactic| ev_step) =>
-    `(tactic| (refine Evolves.mod_queue' ?_ _ _ (fun _ => rfl) (fun _ => rfl) (fun _ => rfl) ?hq;
+    `(tactic| (with_reducible refine Evolves.mod_queue' ?_ _ _ (fun _ => rfl) (fun _ => rfl) (fun _ => rfl) ?hq;
                case hq => (intro _; simp [isResetFrame, resetCount_drop_le]; done)))
 
 theorem clearQueue_sr (h : Evolves SRel RInv a s.store) (id : Nat) : Evolves SRel RInv a (s.clearQueue id).store := by
@@ -28,26 +28,106 @@ theorem queueFrame_sr (h : Evolves SRel RInv a s.store) (id : Nat) (f : SFrame) 
   refine Evolves.mod_queue' h _ _ (fun _ => rfl) (fun _ => rfl) (fun _ => rfl) (fun _ => by simp [hf])
 macro_rules | `(tactic| ev_step) => `(tactic| (with_reducible refine queueFrame_sr ?_ _ _ rfl))
 
+/-- closes `StateStep id st (f st)` for the transition functions of state.rs -/
+syntax "state_step_tac" : tactic
+macro_rules
+  | `(tactic| state_step_tac) =>
+    `(tactic| first
+      | exact step_sendOpen _ _ _ | exact step_recvOpen _ _ _ _ | exact step_reserveRemote _ _
+      | exact step_reserveLocal _ _ | exact step_recvClose _ _ | exact step_sendClose _ _ (by assumption)
+      | exact step_recvReset _ _ _ _ | exact step_handleError _ _ _ | exact step_recvEof _ _)
+
+/-- a state step of one entry, computed from the entry itself -/
+macro_rules
+  | `(tactic| ev_step) =>
+    `(tactic| (with_reducible refine Evolves.mod_state ?_ _ _ (fun _ => rfl) (fun _ => rfl) (fun _ => rfl) ?hs;
+               case hs => state_step_tac))
+
+theorem Evolves.mod_setReset_scheduled {S : Store} (h : Evolves SRel RInv a S) (id : Nat) (r : Reason) (i : Initiator)
+    (hs : (Store.getD' S id).state.isScheduledReset = true) :
+    Evolves SRel RInv a (Store.mod S id (fun st => (st.setReset r i).1)) := by
+  refine h.mod _ _ (fun st hg => ?_)
+  rw [Store.getD'_of_get? hg] at hs
+  exact SRel.setReset_scheduled st r i hs
+
+theorem isScheduledReset_of_get {x : State} {r : Reason} (h : x.getScheduledReset = some r) : x.isScheduledReset = true := by
+  unfold State.isScheduledReset; rw [h]; rfl
+
 theorem sendHeaders_sr (h : Evolves SRel RInv a s.store) (id : Nat) (eos : Bool) (f : List Hpack.Field) :
     Evolves SRel RInv a (s.sendHeaders id eos f).1.store := by
-  unfold Streams.sendHeaders
+  unfold Streams.sendHeaders; ev
+macro_rules | `(tactic| ev_step) => `(tactic| with_reducible apply sendHeaders_sr)
+
+theorem sendPushPromise_sr (h : Evolves SRel RInv a s.store) (p k i : Nat) (f : List Hpack.Field) :
+    Evolves SRel RInv a (s.sendPushPromise p k i f).1.store := by
+  unfold Streams.sendPushPromise; ev
+macro_rules | `(tactic| ev_step) => `(tactic| with_reducible apply sendPushPromise_sr)
+
+theorem sendInterimInformationalHeaders_sr (h : Evolves SRel RInv a s.store) (id : Nat) (f : List Hpack.Field) :
+    Evolves SRel RInv a (s.sendInterimInformationalHeaders id f).1.store := by
+  unfold Streams.sendInterimInformationalHeaders; ev
+macro_rules | `(tactic| ev_step) => `(tactic| with_reducible apply sendInterimInformationalHeaders_sr)
+
+theorem prioSendData_sr (h : Evolves SRel RInv a s.store) (id len : Nat) (eos : Bool) :
+    Evolves SRel RInv a (s.prioSendData id len eos).1.store := by
+  unfold Streams.prioSendData; ev
+macro_rules | `(tactic| ev_step) => `(tactic| with_reducible apply prioSendData_sr)
+
+theorem sendTrailers_sr (h : Evolves SRel RInv a s.store) (id : Nat) (f : List Hpack.Field) :
+    Evolves SRel RInv a (s.sendTrailers id f).1.store := by
+  unfold Streams.sendTrailers; ev
+macro_rules | `(tactic| ev_step) => `(tactic| with_reducible apply sendTrailers_sr)
+
+theorem scheduleImplicitReset_sr (h : Evolves SRel RInv a s.store) (id : Nat) (r : Reason) :
+    Evolves SRel RInv a (s.scheduleImplicitReset id r).store := by
+  unfold Streams.scheduleImplicitReset
   split
   · exact h
-  · split
-    · exact h
-    · next st' _ heq =>
-      have hst : st' = ((s.stream id).state.sendOpen eos).1 := by rw [heq]
-      subst hst
-      have h1 : Evolves SRel RInv a
-          (s.modStream id fun st => { st with state := ((s.stream id).state.sendOpen eos).1 }).store := by
-        simp only [crp_store]
-        exact h.mod_state _ _ (fun _ => rfl) (fun _ => rfl) (fun _ => rfl) (step_sendOpen _ _ _)
-      revert h1
-      generalize (s.modStream id fun st => { st with state := ((s.stream id).state.sendOpen eos).1 }) = s1
-      intro h1
-      ev
+  · next hc =>
+    have h1 : Evolves SRel RInv a (s.modStream id fun st => { st with state := st.state.setScheduledReset r }).store := by
+      simp only [crp_store]
+      refine h.mod _ _ (fun st hg => ?_)
+      rw [stream_eq, Store.getD'_of_get? hg] at hc
+      exact SRel.state_step rfl rfl rfl (step_setScheduledReset _ _ _ (by simpa using hc))
+    ev
+macro_rules | `(tactic| ev_step) => `(tactic| with_reducible apply scheduleImplicitReset_sr)
 
-macro_rules | `(tactic| ev_step) => `(tactic| with_reducible apply sendHeaders_sr)
+theorem clearPendingSend_sr (fuel : Nat) (h : Evolves SRel RInv a s.store) :
+    Evolves SRel RInv a (Streams.clearPendingSend fuel s).store := by
+  induction fuel generalizing s with
+  | zero => unfold Streams.clearPendingSend; exact h
+  | succ n ih =>
+    unfold Streams.clearPendingSend
+    split
+    · ev
+    · next s1 id heq =>
+      subst_fst
+      dsimp only
+      apply ih
+      apply transitionAfter_ev
+      split
+      · next r hr =>
+        simp only [crp_store]
+        exact Evolves.mod_setReset_scheduled (by ev) _ _ _ (isScheduledReset_of_get hr)
+      · ev
+macro_rules | `(tactic| ev_step) => `(tactic| with_reducible apply clearPendingSend_sr)
+
+theorem sendHandleError_sr (h : Evolves SRel RInv a s.store) (id : Nat) :
+    Evolves SRel RInv a (s.sendHandleError id).store := by
+  unfold Streams.sendHandleError
+  dsimp only
+  split
+  · split
+    · next r hr =>
+      simp only [crp_store]
+      exact Evolves.mod_setReset_scheduled (by ev) _ _ _ (isScheduledReset_of_get hr)
+    · ev
+  · ev
+macro_rules | `(tactic| ev_step) => `(tactic| with_reducible apply sendHandleError_sr)
+
+theorem sendClearQueues_sr (h : Evolves SRel RInv a s.store) : Evolves SRel RInv a s.sendClearQueues.store := by
+  unfold Streams.sendClearQueues; ev
+macro_rules | `(tactic| ev_step) => `(tactic| with_reducible apply sendClearQueues_sr)
 
 end
 end H2V.Lemmas.ConnResetP
